@@ -964,7 +964,7 @@ def run_generated(rep, tier):
         finish_engine(rep, it)
     # ---- g2 with 0, 1, 2 list elements
     if only in (None, 'g2'):
-        for nl in (0, 1, 2):
+        for nl in ((0, 1, 2) if tier == 'quick' else (0, 1, 2, 3)):
             it = mk({})
             dec = Decider(rep, it)
             st = St()
@@ -1074,6 +1074,8 @@ def run_generated(rep, tier):
 
 
 def run(rep, tier):
+    global L
+    L = 3 if tier == 'quick' else int(os.environ.get('VERIF_C04_L', '6'))          # thorough: strings of <= 6 bytes (two percent triplets, every UTF-8 sequence length), lists of 0..3
     with rep.part('macro client/server'):
         run_macro(rep, tier)
     with rep.part('generated client/server'):
